@@ -183,7 +183,7 @@ def W.load (eng : Engine E) (w : W E) (ok : Bool) : W E × Nat :=
   if ok then
     let w := { w with dbLoaded := true, engine := eng.fresh, simulation := 2, firstRead := true }
     (w.updateErrors, 0)
-  else ({ w with ioErrors := 1, errReporter := 1 }, 1)
+  else (({ w with ioErrors := 1, errReporter := 1 } : W E).updateErrors, 1)     -- load_db ends with update_errors
 
 /-- observable difference allowed between entry points: the accumulate buffer and its flag -/
 def W.modInput (w : W E) : W E := { w with stringInput := [], clearAccumulated := false }
